@@ -44,8 +44,15 @@ def observation_heap_invariant(sv):
 ]
 
 
+def plan_heap_invariant(sv):
+    """the task list of a plan holds task objects"""
+    tc = sv.heap('WorkflowPlan', 'tasks.cnt', IntArr)
+    return [('plan-tasks-are-objects', Q([('p', I), ('t', I)], lambda p, t: z3.Implies(z3.Select(z3.Select(tc, p), t) > 0, t > 0)))]
+
+
 REG.heap_invariants.append(entity_heap_invariant)
 REG.heap_invariants.append(observation_heap_invariant)
+REG.heap_invariants.append(plan_heap_invariant)
 
 
 REG.contract('Task.calculate_runtime',
